@@ -53,6 +53,8 @@ def unwrap(D, name, depth=0):
         return None
     if t['kind'] == 'enum':
         return t['name']
+    if t['kind'] == 'sdt':
+        return None                      # a structured type has no simple XSD type
     return unwrap(D, t['base'], depth + 1)
 
 
@@ -62,7 +64,10 @@ def type_name_of(D, name):
         return name
     if name in bpmodel.CORE:
         return None
-    if name in bpmodel.GLOBAL_UDT or bpmodel.find_type(D, name) is not None:
+    if name in bpmodel.GLOBAL_UDT:
+        return name
+    t = bpmodel.find_type(D, name)
+    if t is not None and t['kind'] != 'sdt':
         return name
     return None
 
@@ -87,6 +92,8 @@ def expected(D, comp=0):
             continue
         if t['kind'] == 'enum':
             types[t['name']] = ('enum', list(t['enumerators']))
+        elif t['kind'] == 'sdt':
+            continue
         else:
             base = type_name_of(D, t['base'])
             if base is not None:
@@ -158,6 +165,14 @@ def run_case(case, res=None):
             D['components'].append({'name': 'Elsewhere', 'parent': ['pkg', 0]})
             D['types'].append({'name': 'UdtElse', 'kind': 'udt', 'base': 'integer', 'parent': ['comp', len(D['components']) - 1]})
             log.append('user type UdtElse added in another component')
+        if case.get('ensure') == 2 and D['classes']:
+            # a structured data type and a user type based on it: attributes typed by them are of no supported type
+            D['types'].append({'name': 'Struct1', 'kind': 'sdt', 'parent': ['pkg', 1]})
+            D['types'].append({'name': 'UdtS', 'kind': 'udt', 'base': 'Struct1', 'parent': ['pkg', 1]})
+            c0 = D['classes'][0]
+            c0['attrs'].append({'name': 'Zq_struct', 'type': 'Struct1'})
+            c0['attrs'].append({'name': 'Zq_ustruct', 'type': 'UdtS'})
+            log.append('attributes of a structured type and of a user type over it added to %s' % c0['kl'])
     info = dict(case, edits_applied=log)
 
     def fail(bucket, detail):
@@ -249,7 +264,7 @@ def run(ctx):
                                    'via_main': st.integers(0, 5).map(lambda k: k == 0),
                                    'base': st.sampled_from(['synth', 'synth', 'synth', 'simple_model']),
                                    'derive_id': st.one_of(st.none(), st.none(), st.integers(0, 9)),
-                                   'ensure': st.booleans()})
+                                   'ensure': st.sampled_from([0, 1, 2])})
     hyp_run(ctx, res, strat, body, ctx.pick(400, 2500), label='diagrams')
     return res
 
